@@ -13,7 +13,7 @@ use crate::scheduler::get_scheduler;
 use crate::sync::atomic_dur::AtomicDuration;
 use crate::sync::AtomicOption;
 use crate::timeout_list::TimeoutHandle;
-use crate::yield_now::{get_co_para, yield_now, yield_with};
+use crate::yield_now::{get_co_para, set_co_para, yield_now, yield_with};
 
 #[derive(Debug, Copy, Clone, Eq, PartialEq)]
 pub enum ParkError {
@@ -245,6 +245,11 @@ impl EventSource for Park {
 
         let _g = self.delay_drop();
 
+        // register the cancel data before the coroutine is published: once it is
+        // published it may be resumed and register somewhere else, which a late
+        // registration from here would overwrite
+        cancel.set_co(self.wait_co.clone());
+
         #[cfg(may_verif)]
         may_queue::verif::point(may_queue::verif::site::PARK_SUB_ARMED, Arc::as_ptr(&self.wait_co) as usize);
         // register the coroutine
@@ -268,13 +273,15 @@ impl EventSource for Park {
 
         #[cfg(may_verif)]
         may_queue::verif::point(may_queue::verif::site::PARK_SUB_RECHECKED, Arc::as_ptr(&self.wait_co) as usize);
-        // register the cancel data
-        cancel.set_co(self.wait_co.clone());
         #[cfg(may_verif)]
         may_queue::verif::point(may_queue::verif::site::PARK_SUB_CANCELSET, Arc::as_ptr(&self.wait_co) as usize);
-        // re-check the cancel status
+        // re-check the cancel status: a cancel that came before the coroutine was
+        // stored found nothing to wake up (and consumed the registration)
         if cancel.is_canceled() {
-            unsafe { cancel.cancel() };
+            if let Some(mut co) = self.wait_co.take() {
+                set_co_para(&mut co, std::io::Error::other("Canceled"));
+                get_scheduler().schedule(co);
+            }
         }
     }
 
